@@ -129,7 +129,7 @@ class C02Gen(langgen.Gen):
 
     TEMPLATES = ["self_assign", "call_reassign", "returns", "nested_store", "pop_reuse", "index_overwrite",
                  "interp", "deep_rec", "churn", "param_array", "many_locals", "param_string", "shout_recycle",
-                 "returns", "call_reassign", "churn", "fn_array_result", "host"]
+                 "returns", "call_reassign", "churn", "fn_array_result", "host", "empty_rows", "empty_rows"]
 
     def t_self_assign(self, ind):
         pad = "  " * ind
@@ -427,6 +427,71 @@ class C02Gen(langgen.Gen):
                  "%sshout(%s(%s))" % (pad, use, h), "%sshout(to_string(%s))" % (pad, h),
                  "%sshout(to_string(%s(%s)))" % (pad, mk, self.dyn(9))]
         self.declare(i, NUM)
+        return lines
+
+    def t_empty_rows(self, ind):
+        """empty nested arrays (no buffer yet, but an allocator) that are grown later through an index
+        receiver inside loops, callees and recursion; rows emptied by pop() and refilled; returned / passed"""
+        if not self.can_define_fn() or self.loop_depth >= 1:
+            return None
+        r = self.r
+        pad = "  " * ind
+        b, i, f, g, mk = self.fresh("b"), self.fresh("i"), self.fresh("f"), self.fresh("f"), self.fresh("f")
+        k = r.randint(1, 4)
+        form = r.randrange(6)
+        lines = []
+        if form == 0:
+            lines.append("%smake %s get [%s]" % (pad, b, ", ".join("[]" for _ in range(k))))
+        elif form == 1:
+            rows = ["[]" if r.random() < 0.6 else "[%s]" % self.sx() for _ in range(k)]
+            rows[r.randrange(k)] = "[]"
+            lines.append("%smake %s get [%s]" % (pad, b, ", ".join(rows)))
+        elif form == 2:
+            lines.append("%smake %s get []" % (pad, b))
+            lines += ["%s%s.push([])" % (pad, b) for _ in range(k)]
+        elif form == 3:
+            lines.append("%smake %s get [%s]" % (pad, b, ", ".join("[%s]" % self.sx() for _ in range(k))))
+            lines += ["%sshout(%s[%d].pop())" % (pad, b, j) for j in range(k)]
+        elif form == 4:
+            lines += ["%sdo %s() start return [%s] end" % (pad, mk, ", ".join("[]" for _ in range(k))),
+                      "%smake %s get %s()" % (pad, b, mk)]
+        else:
+            lines.append("%smake %s get [[%s]]" % (pad, b, ", ".join("[]" for _ in range(k))))   # one level deeper
+        deep = form == 5
+        row = (lambda e: "%s[0][%s]" % (b, e)) if deep else (lambda e: "%s[%s]" % (b, e))
+        item = r.choice(['"item_{%s}"' % i, '"%s" add to_string(%s)' % (sized(r), i), "%s" % i, "[to_string(%s)]" % i])
+        n = r.randint(2, 9)
+        route = r.randrange(5)
+        if route == 0:      # loop body
+            lines += ["%smake %s get 0" % (pad, i), "%sjasi (%s small pass %d) start" % (pad, i, n),
+                      "%s  %s.push(%s)" % (pad, row("%s mod %d" % (i, k)), item),
+                      "%s  make t get [%s, %s, %s, %s]" % (pad, i, i, i, i),
+                      "%s  %s get %s add 1" % (pad, i, i), "%send" % pad]
+        elif route == 1:    # callee capturing the table
+            lines += ["%sdo %s(s) start" % (pad, f)] + \
+                     ["%s  %s.push(s add \"-%d\")" % (pad, row(str(j)), j) for j in range(k)] + ["%send" % pad] + \
+                     ["%s%s(%s)" % (pad, f, self.sx()) for _ in range(r.randint(1, 3))]
+        elif route == 2:    # passed as a parameter, filled in the callee's loop, returned
+            lines += ["%sdo %s(t, s) start" % (pad, f), "%s  make %s get 0" % (pad, i),
+                      "%s  jasi (%s small pass %d) start" % (pad, i, n),
+                      "%s    t%s.push(s add to_string(%s))" % (pad, ("[0][%s mod %d]" if deep else "[%s mod %d]") % (i, k), i),
+                      "%s    %s get %s add 1" % (pad, i, i), "%s  end" % pad, "%s  return t" % pad, "%send" % pad,
+                      "%s%s get %s(%s, %s)" % (pad, b, f, b, self.sx())]
+        elif route == 3:    # recursion
+            lines += ["%sdo %s(n) start" % (pad, f), "%s  if to say (n small pass 1) start return 0 end" % pad,
+                      "%s  %s.push(\"r\" add to_string(n))" % (pad, row("n mod %d" % k)),
+                      "%s  return %s(n minus 1)" % (pad, f), "%send" % pad, "%sshout(%s(%d))" % (pad, f, n)]
+        else:               # loop inside a callee, plus a new empty row appended and grown
+            lines += ["%sdo %s(s) start" % (pad, g), "%s  make %s get 0" % (pad, i),
+                      "%s  jasi (%s small pass %d) start" % (pad, i, n),
+                      "%s    %s.push(s add to_string(%s))" % (pad, row("%s mod %d" % (i, k)), i),
+                      "%s    %s get %s add 1" % (pad, i, i), "%s  end" % pad, "%s  return s" % pad, "%send" % pad,
+                      "%sshout(%s(%s))" % (pad, g, self.sx())]
+            if not deep:
+                lines += ["%s%s.push([])" % (pad, b), "%sshout(%s(%s))" % (pad, g, self.sx())]
+        lines += ["%sshout(%s.len())" % (pad, row("0")), "%sshout(%s)" % (pad, b)]
+        if route == 0:
+            self.declare(i, NUM)
         return lines
 
     def t_fn_array_result(self, ind):
@@ -779,6 +844,23 @@ def gen_shape(r):
 
     def stmt(depth, inloop):
         k = r.random()
+        tables = [v for v in avars if v[1] == 2]
+        if k < 0.05 and not inloop:
+            # a table of (mostly empty) rows; rows are grown later through an index receiver
+            a = fresh("t")
+            m = r.randint(1, 3)
+            rows = [("arr", []) if r.random() < 0.7 else ("arr", [sexpr(2)]) for _ in range(m)]
+            avars.append((a, 2, m))
+            return [("make", a, ("arr", rows))]
+        if k < 0.16 and tables:
+            t = r.choice(tables)
+            how = r.random()
+            if how < 0.6 or inloop or depth > 0:
+                return [("push", t[0], [r.randrange(t[2])], sexpr(1))]
+            f = fresh("f")
+            body = [("push", t[0], [j], ("cat", ("var", "s"), ("lit", "-%d" % j))) for j in range(t[2])]
+            stmts.append(("fn", f, ["s"], body))
+            return [("expr", ("call", f, [sexpr(1, False)])), ("expr", ("call", f, [sexpr(1, False)]))]
         if k < 0.18:
             x = fresh("s")
             e = sexpr()
@@ -793,7 +875,7 @@ def gen_shape(r):
             els = [sexpr(1) for _ in range(m)]
             avars.append((a, 1, m))
             return [("make", a, ("arr", els))]
-        if k < 0.52 and avars:
+        if k < 0.52 and [v for v in avars if v[1] == 1]:
             a = r.choice([v for v in avars if v[1] == 1])
             e = sexpr(1)
             i = avars.index(a)
@@ -868,6 +950,10 @@ WITNESS_SHAPES = {
                         ("shout", ("call", "f", [("var", "s")])), ("shout", ("var", "s"))], "alias"),
     "param_array_loop": ([("fn", "f", ["p"], [("loop", "i", 3, [("push", "p", [], ("cat", ("lit", "e"), ("str", "i")))]), ("return", ("var", "p"))]),
                           ("shout", ("call", "f", [("arr", [("lit", "q")])]))], "noparam"),
+    "empty_rows_loop": ([("make", "b", ("arr", [("arr", []), ("arr", [])])),
+                         ("loop", "i", 4, [("push", "b", [0], ("cat", ("lit", "item_"), ("str", "i"))),
+                                           ("push", "b", [1], ("cat", ("lit", "x"), ("str", "i")))]),
+                         ("shout", ("var", "b"))], None),
     "no_staging": ([("fn", "g", [], [("return", ("cat", ("lit", "he"), ("lit", "llo")))]), ("shout", ("call", "g", []))], "nostage"),
 }
 
@@ -970,6 +1056,10 @@ CORPUS = [
     ("param-array-in-frame", 'do f(p) start\n  make i get 0\n  jasi (i small pass 2) start\n    p[0].push(i)\n    i get i add 1\n  end\n  return p\nend\nshout(f([[1]]))\n'),
     ("param-array-in-frame", 'do f(a, n) start\n  make i get 0\n  jasi (i small pass 3) start\n    a.push(to_string(n) add "-" add to_string(i))\n    i get i add 1\n  end\n  if to say (n small pass 1) start return a end\n  return f(a, n minus 1)\nend\nshout(f(["r"], 4))\n'),
     ("param-array-in-frame", 'do f(a) start\n  make i get 0\n  jasi (i small pass 3) start\n    make e get a.pop()\n    a.push(e add "!")\n    a.push(e)\n    i get i add 1\n  end\n  return a\nend\nshout(f(["u" add "v"]))\n'),
+    ("nested-empty-row-frame-allocator", 'make buckets get [[], [], []]\nmake i get 0\njasi (i small pass 9) start\n    buckets[i mod 3].push("item_{i}")\n    i get i add 1\nend\nshout(buckets[0].len())\nshout(buckets)\n'),
+    ("nested-empty-row-frame-allocator", 'make table get [[], []]\ndo add_row(label) start\n    table[0].push(label add "-a")\n    table[1].push(label add "-b")\nend\nadd_row("x")\nadd_row("y")\nshout(table[0].len())\nshout(table)\n'),
+    ("nested-empty-row-frame-allocator", 'make m get []\nm.push([])\nm.push([[]])\nmake i get 0\njasi (i small pass 5) start\n  m[0].push("a" add to_string(i))\n  m[1][0].push(i)\n  make t get [i, i, i, i, i, i]\n  i get i add 1\nend\nshout(m)\n'),
+    ("nested-empty-row-frame-allocator", 'do mk() start return [[], ["k" add "l"]] end\ndo fill(t, n) start\n  if to say (n small pass 1) start return t end\n  t[0].push("d" add to_string(n))\n  shout(t[1].pop())\n  t[1].push("e" add to_string(n))\n  return fill(t, n minus 1)\nend\nmake q get fill(mk(), 6)\nshout(q)\nmake i get 0\njasi (i small pass 4) start\n  q[1].pop()\n  q[1].push("z" add to_string(i))\n  q[0].push(q[1][0])\n  i get i add 1\nend\nshout(q)\n'),
     ("probe-index-swap-loop", 'make a get ["a" add "b", "c" add "d"]\nmake i get 0\njasi (i small pass 3) start\n  a[0] get a[1] add "x"\n  a[1] get a[0] add "y"\n  i get i add 1\nend\nshout(a)\n'),
     ("probe-pop-reuse", 'make a get []\nmake i get 0\njasi (i small pass 20) start\n  a.push("s" add to_string(i))\n  i get i add 1\nend\njasi (a.len() pass 10) start\n  shout(a.pop())\nend\nmake b get a.pop()\na.push("zz" add b)\nshout(a)\nshout(b)\n'),
     ("probe-deep-recursion", 'do mk(n) start\n  if to say (n small pass 1) start return "" end\n  return "ab" add mk(n minus 1)\nend\nshout(mk(30))\nmake x get mk(5)\nx get mk(3) add x\nshout(x)\n'),
@@ -987,6 +1077,8 @@ CORPUS = [
 
 def classify(src):
     """stable key of a failing program (after shrinking)"""
+    if re.search(r"\[\s*\]", src) and re.search(r"\]\s*\.push\(", src) and not re.search(r"do\s+\w+\(\s*\w", src):
+        return "nested-empty-row-frame-allocator"
     for m in re.finditer(r"do\s+\w+\(([^)]*)\)\s+start", src):
         for p in [x.strip() for x in m.group(1).split(",") if x.strip()]:
             if re.search(r"\b%s(\[[^\]]*\])*\.(push|pop)\(" % re.escape(p), src):
@@ -1172,7 +1264,7 @@ def correspond(env, searching=False, model=True):
                 mv = m["mem"].get(v, ("missing", ""))
                 if mv[0] != "ok" or mv[1] != ref[1]:
                     shape_stats["variant_faults"][v] += 1
-            if cid.startswith("w_"):
+            if cid.startswith("w_") and WITNESS_SHAPES[cid[2:]][1]:
                 want = WITNESS_SHAPES[cid[2:]][1]
                 mv = m["mem"].get(want, ("missing", ""))
                 if mv[0] == "ok" and mv[1] == ref[1] and len(disagreements) < 5:
